@@ -71,6 +71,11 @@ func Run(r *core.Run) {
 	for _, name := range []string{"identifier", "idx", "i", "ids", "services", "serviceProvider", "servic", "publicKeys", "publicKeyBase", "publicKe", "alsoKnownAsWell", "alsoKnown", "context", "contexts", "document", "patches", "action"} {
 		docs = append(docs, `{"publicKey":[`+k[0]+`],"`+name+`":{"n":[1]}}`, `{"publicKey":[`+k[0]+`],"service":[`+s[0]+`],"alsoKnownAs":[`+a[0]+`],"`+name+`":"v","scalar":1}`)
 	}
+	// further members whose values hold characters that mean something to a formatter, a template or an escaper: percent signs
+	// (with and without a verb letter after them, also last), braces, backslashes, quotes, HTML characters, U+2028
+	for vi, v := range []string{`"https://x.example/my%20page"`, `"100%"`, `"50%% off"`, `["a%sb","%d","%v%"]`, `{"progress":"100%","n":1}`, `"{{.}} ${x} {0}"`, `"back\\slash \"quoted\""`, `"<a href=\"x\">&amp;</a>"`, "\"line\u2028sep\""} {
+		docs = append(docs, `{"publicKey":[`+k[0]+`],"homepage":`+v+`}`, `{"service":[`+s[0]+`],"m`+fmt.Sprint(vi)+`":`+v+`,"scalar":"v"}`)
+	}
 	// also-known-as URIs that are valid but not spelled the way a URL library would print them: they are data and must come back as written
 	for _, u := range []string{`"HTTPS://Upper.example/Me"`, `"https://x.example/jos\u00e9"`, `"https://x.example/me#"`, `"http://x.example/%7Euser"`, `"did:Example:ABC"`, `"https://x.example/a b"`} {
 		docs = append(docs, `{"publicKey":[`+k[0]+`],"alsoKnownAs":[`+u+`,"https://plain.example/"]}`, `{"alsoKnownAs":[`+u+`]}`)
